@@ -397,6 +397,14 @@ def run_check(spec, tier, base_seed, nproc=None, n_override=None):
         by_sig.setdefault(v["sig"], v)
     reports = []
     max_groups = int(cfg.get("max_groups", 6))
+    # a signature that is a listed open finding is reported as such without being minimised again (the shrinker
+    # preserves the signature, which is all that the finding's matcher looks at)
+    pre_known = []
+    for sig, v in list(by_sig.items()):
+        k = match_known(known, v)
+        if k is not None:
+            pre_known.append((k, {"viol": v, "sig": sig}))
+            del by_sig[sig]
     groups = list(by_sig.values())[:max_groups]
     if groups:
         budget = float(cfg.get("shrink_budget_s", 45))
@@ -408,7 +416,7 @@ def run_check(spec, tier, base_seed, nproc=None, n_override=None):
                 except Exception as e:      # noqa: BLE001
                     harness_errors.append("shrinker failed: %s: %s" % (type(e).__name__, e))
     new_violations = []
-    known_hits = []
+    known_hits = list(pre_known)
     for rep in reports:
         if not rep["reproduced"]:
             harness_errors.append("violation %s at seed %d did not reproduce when replayed from its decision "
